@@ -3,7 +3,7 @@ import os
 
 from hypothesis import strategies as st
 
-from .. import arrange, common, gen, jsonio, values
+from .. import findings, arrange, common, gen, jsonio, values
 from ..common import asn1tools
 from ..runner import Check, Failure, exc_sig, hyp_run
 from .c13 import outcome, show
@@ -61,7 +61,7 @@ class C19(Check):
     def run_shard(self, shard, tier, seed, rec):
         scale = float(os.environ.get('ASN1V_SCALE', '1'))
         n = max(1, int((12 if tier == "quick" else 600) * scale))
-        prof = gen.Profile(max_types=4, max_depth=3, ext_implied=True)
+        prof = gen.Profile(max_types=4, max_depth=3, ext_implied=True, components_of_rate=25)
 
         def body(case, rec):
             spec, probes, arrs = case
@@ -74,6 +74,10 @@ class C19(Check):
                 if not log:
                     continue
                 text1 = a.text()
+                if findings.components_of_foreign_refs(a):
+                    # known finding components-of-foreign-refs: excluded by construction, counted
+                    rec.cls('excluded-by-known-finding:components-of-foreign-refs')
+                    continue
                 for codec in CODECS:
                     rec.ev()
                     c0 = ref[codec]
